@@ -132,7 +132,11 @@ def run(ctx, rep):
 
     # ---------- R12.2 consumers agree
     consumers = sorted({p_ for p_, bb, t, cal, c in cg.call_sites(lambda c: c == pp, within=reach)})
-    rep.floor("R12.2", len(consumers), 3, "callers of preprocess_payload")
+    # the checker and at least one view consume the cut payload (two views may share one loop body)
+    rep.floor("R12.2", len(consumers), 2, "callers of preprocess_payload")
+    rep.check(any(c_.startswith("fastpasta::analyze::validators::") for c_ in consumers) and any(c_.startswith("fastpasta::analyze::view::") for c_ in consumers),
+              "R12.2", "R12.2|consumers", "the payload cutter is consumed by the checker and by the ITS views: %s" % [c_.split("::")[-1] for c_ in consumers], pp,
+              "preprocess_payload is not consumed by both the checker and a view any more: %s" % consumers)
     for cpath in consumers:
         b = cg.body(cpath)
         bodies = [(cpath, b)] + [(k, cg.body(k)) for k in f.fns if k.startswith(cpath + "::{closure")]
